@@ -541,120 +541,6 @@ class ClassInfo:
         self.full = mod.name + ':' + node.name
 
 
-# ---------------------------------------------------------------------------
-# Alpha-normalisation of local names.
-#
-# The rules name some locals (atoms of an algebraic identity, the target of
-# a single definition).  Renaming a local is behaviour-preserving and must
-# not change a verdict, so before any rule runs every function's locals are
-# renamed *back* to the names recorded for that function in
-# dsa/localnames.json (order of first binding on the tree the rules were
-# written against).  Only a consistent renaming of a function's own locals
-# to names unused in it is ever applied -- the program the rules see is
-# alpha-equivalent to the program on disk.
-
-_LOCALNAMES = None
-
-
-def local_order(fn):
-    """Parameter names and locals of a function in order of first binding
-    (comprehension-scoped names and nested defs excluded)."""
-    a = fn.args
-    params = [x.arg for x in a.posonlyargs + a.args + a.kwonlyargs]
-    if a.vararg:
-        params.append(a.vararg.arg)
-    if a.kwarg:
-        params.append(a.kwarg.arg)
-    seen, out = set(params), []
-    stores = []
-
-    def visit(n, top):
-        for ch in ast.iter_child_nodes(n):
-            if isinstance(ch, (ast.FunctionDef, ast.AsyncFunctionDef,
-                               ast.ClassDef, ast.Lambda, ast.ListComp,
-                               ast.SetComp, ast.DictComp, ast.GeneratorExp)):
-                continue
-            if isinstance(ch, ast.Name) and isinstance(ch.ctx, ast.Store):
-                stores.append(ch)
-            visit(ch, False)
-    visit(fn, True)
-    stores.sort(key=lambda n: (n.lineno, n.col_offset))
-    for n in stores:
-        if n.id not in seen:
-            seen.add(n.id)
-            out.append(n.id)
-    return params, out
-
-
-def _qualfuncs(tree):
-    out = []
-
-    def rec(body, prefix):
-        for st in body:
-            if isinstance(st, (ast.FunctionDef, ast.AsyncFunctionDef)):
-                q = prefix + st.name
-                if any(isinstance(d, ast.Attribute) and d.attr == 'setter'
-                       for d in st.decorator_list):
-                    q += '.setter'
-                out.append((q, st))
-                rec(st.body, q + '.')
-            elif isinstance(st, ast.ClassDef):
-                rec(st.body, prefix + st.name + '.')
-            elif isinstance(st, (ast.If, ast.Try, ast.For, ast.While,
-                                 ast.With)):
-                rec([s for s in ast.iter_child_nodes(st)
-                     if isinstance(s, ast.stmt)], prefix)
-    rec(tree.body, '')
-    return out
-
-
-def align_locals(tree, modname):
-    """Rename locals back to their recorded names.  -> [(func, cur, ref)]"""
-    global _LOCALNAMES
-    if _LOCALNAMES is None:
-        p = os.path.join(VERIF, 'dsa', 'localnames.json')
-        try:
-            with open(p) as fh:
-                _LOCALNAMES = json.load(fh)
-        except OSError:
-            _LOCALNAMES = {}
-    table = _LOCALNAMES.get(modname)
-    if not table or os.environ.get('DSA_NO_ALIGN'):
-        return []
-    done = []
-    for q, fn in _qualfuncs(tree):
-        ref = table.get(q)
-        if not ref:
-            continue
-        params, locs = local_order(fn)
-        used = {n.id for n in ast.walk(fn) if isinstance(n, ast.Name)} | \
-            set(params)
-        mapping = {}
-        ref_only = [n for n in ref['locals'] if n not in locs]
-        cur_only = [n for n in locs if n not in ref['locals']]
-        if ref_only and len(ref_only) == len(cur_only):
-            for c, r in zip(cur_only, ref_only):
-                if r not in used:
-                    mapping[c] = r
-        rp = ref.get('params', [])
-        if len(rp) == len(params):
-            for c, r in zip(params, rp):
-                if c != r and r not in used and c != 'self':
-                    mapping[c] = r
-        if not mapping:
-            continue
-        for n in ast.walk(fn):
-            if isinstance(n, ast.Name) and n.id in mapping:
-                n.id = mapping[n.id]
-            elif isinstance(n, ast.arg) and n.arg in mapping:
-                n.arg = mapping[n.arg]
-            elif isinstance(n, ast.keyword) and False:
-                pass
-        for c, r in mapping.items():
-            done.append((q, c, r))
-    return done
-
-
 class Module:
     def __init__(self, name, path, rel, text):
         self.name = name
